@@ -36,6 +36,35 @@ TOL = F(1, 10 ** 10)
 MAXOUT = 200000
 
 # ------------------------------------------------------------------ generators
+
+# ---- local copies of small generators (so that renames in tools/gen.py by other groups cannot break C16)
+DYADIC = [F(k, d) for k in range(-8, 9) for d in (1, 2, 4)]
+def dyq(r, nz=False):
+    v = r.choice(DYADIC)
+    return F(1) if (nz and v == 0) else v
+def dyvec(r, n): return [dyq(r) for _ in range(n)]
+def matvec(rows, x): return [sum((v * x[c] for c, v in rw), F(0)) for rw in rows]
+def tridiag(r, n):
+    rows = []
+    for i in range(n):
+        rw = {}
+        if i > 0: rw[i - 1] = gen.rq(r, nz=True)
+        if i + 1 < n: rw[i + 1] = gen.rq(r, nz=True)
+        rw[i] = sum(abs(v) for v in rw.values()) + F(r.choice([1, 2, 3]), r.choice([1, 2]))
+        rows.append(sorted(rw.items()))
+    return rows
+def arrow(r, n):
+    rows = []
+    for i in range(n):
+        rw = {}
+        if i < n - 1:
+            if r.random() < 0.85: rw[n - 1] = gen.rq(r, nz=True)
+        else:
+            for j in range(n - 1):
+                if r.random() < 0.85: rw[j] = gen.rq(r, nz=True)
+        rw[i] = sum(abs(v) for v in rw.values()) + F(r.choice([1, 2, 3]), r.choice([1, 2]))
+        rows.append(sorted(rw.items()))
+    return rows
 def dd_values(r, n, pat_rows, style):
     """values for a pattern (list of column lists, diagonal may be absent): strictly row diagonally
     dominant where the diagonal is present; style: 'int' | 'frac' | 'zeros' (some stored zeros)"""
@@ -127,8 +156,8 @@ def sky_cases(r, tier, add):
         if kind == "spd": rows = gen.spd_mmatrix(r, n)
         elif kind == "nonsym": rows = gen.nonsym_dd(r, n, density=r.choice([0.1, 0.25, 0.5]))
         elif kind == "disc": rows = disconnected(r, n)
-        elif kind == "arrow": rows = gen.arrow(r, n)
-        else: rows = gen.tridiag(r, n)
+        elif kind == "arrow": rows = arrow(r, n)
+        else: rows = tridiag(r, n)
         if r.random() < 0.5: rows = gen.shuffle_rows(r, rows)
         op = "sky_t" if it % 5 == 0 else "sky"
         add(op, "%d %s %s" % (r.randrange(2), fmt_crs(n, n, rows), rhs_block(r, n, r.choice([1, 2, 3]))))
@@ -247,7 +276,7 @@ def sm_cases(r, tier, add):
         add("smident", "%d %s %s %s %s" % (b, A(), A(), A(), fmt_q(gen.rq(r))))
 
 def dense(r, m, n, kind, dy=False):
-    q = (lambda nz=False: gen.dyq(r, nz)) if dy else (lambda nz=False: gen.rq(r, nz))
+    q = (lambda nz=False: dyq(r, nz)) if dy else (lambda nz=False: gen.rq(r, nz))
     if kind == "full": a = [[q(True) if r.random() < 0.85 else q() for _ in range(n)] for _ in range(m)]
     elif kind == "zerocol":
         a = [[q(True) for _ in range(n)] for _ in range(m)]
@@ -287,14 +316,14 @@ def qr_cases(r, tier, add, exact):
             o1 = r.randrange(2); a1 = dense(r, m1, n1, "full", dy=not exact)
             add(pfx + "qr2", "%d %d %d %s %d %d %d %s" % (o1, m1, n1, fmt_vec(flat(a1, o1)), order, m, n, fmt_vec(flat(a, order))),
                 meta=dict(a=a, kind=kind))
-        b = [gen.dyq(r) if not exact else gen.rq(r) for _ in range(m)]
+        b = [dyq(r) if not exact else gen.rq(r) for _ in range(m)]
         add(pfx + "qrsolve", "%d %d %d %s %s" % (order, m, n, fmt_vec(flat(a, order)), fmt_vec(b)), meta=dict(a=a, b=b, kind=kind))
 
 def dbl_cases(r, tier, add):
     quick = tier == "quick"
     for it in range(100 if quick else 800):
         n = r.choice([1, 2, 3, 4, 5, 6])
-        a = [gen.dyq(r) for _ in range(n * n)]
+        a = [dyq(r) for _ in range(n * n)]
         add("d.inv", "%d %s %s" % (n, fmt_vec(a), " ".join([str(n * n)] + [r.choice(["nan", "inf", "3", "-1"]) for _ in range(n * n)])),
             meta=dict(n=n, a=a))
     for it in range(40 if quick else 300):
@@ -305,7 +334,7 @@ def dbl_cases(r, tier, add):
         for i, rw in enumerate(rows):   # keep dominance after rounding to dyadics
             off = sum(abs(v) for c, v in rw if c != i)
             rows[i] = [(c, (off + 1 if c == i else v)) for c, v in rw]
-        f = gen.dyvec(r, n)
+        f = dyvec(r, n)
         add("d.sky", "0 %s 1 %s %s" % (fmt_crs(n, n, rows), fmt_vec(f), fmt_vec([F(0)] * n)), meta=dict(rows=rows, f=f, n=n))
 
 def cases(tier, seed):
@@ -423,7 +452,7 @@ def check_dsky(line, out, meta):
     rows = meta["rows"]; f = meta["f"]; n = meta["n"]
     x = pv(out)
     if x is None: return "non-finite value"
-    ax = gen.matvec(rows, x)
+    ax = matvec(rows, x)
     sc = max([abs(v) for rw in rows for _, v in rw] + [F(1)]) * max([abs(v) for v in x] + [F(1)]) * n
     for i in range(n):
         if abs(ax[i] - f[i]) > TOL * sc: return "|A x - b| in row %d = %.3e" % (i, float(abs(ax[i] - f[i])))
@@ -497,7 +526,7 @@ def run(ctx, cases_override=None):
                 fails.append(dict(kind="counterexample", case=l, impl=out, model=model.get(cid), op=op, size=len(l),
                                   theorem="C16: %s must terminate normally on valid input" % op))
             continue
-        if len(out) > MAXOUT:
+        if len(out) > MAXOUT and op in ("sky", "sky_t", "skyb", "cm", "inv", "sminv"):
             # garbage (e.g. values read out of bounds): do not feed megabyte rationals to the oracle stage
             fails.append(dict(kind="counterexample", case=l, impl=out[:300] + "...", model=(model.get(cid) or "")[:300], op=op, size=len(l),
                               theorem="C16: %s output is absurdly large (%d characters): garbage values" % (op, len(out))))
